@@ -314,7 +314,7 @@ struct L2Sim : Sim {
                                 r.cov.state(mix64(0x5ca0 + impl, mix64(max - start < 3 ? max - start : 3, i < max)));
                                 r.cov.hit("kernel_rolling_scan_calls");
                         } else if (o.kind == OP_SHA512SB && k_sha512_sse4) {
-                                uint32_t nblk = 1 + (uint32_t) (o.b % 6);
+                                uint32_t nblk = (uint32_t) (o.b % 7); // 0 blocks: the kernel has an explicit "nothing to hash" exit
                                 uint8_t *in = e.mem.alloc((size_t) nblk * 128, 1, (Place) (o.d % 3), nullptr, "block input", R_INPUT, (size_t) ((o.d >> 2) % 64));
                                 g.fill(in, (size_t) nblk * 128);
                                 e.mem.snapshot(in);
@@ -428,6 +428,8 @@ struct L2Sim : Sim {
                         if (o.kind == OP_SUBMIT) {
                                 L2Job j;
                                 j.blocks = (o.b % 9 == 8) ? 20 + (uint32_t) (o.c % 40) : 1 + (uint32_t) (o.b % 9 % 8);
+                                if ((o.c & 0x1f) == 0x1f)
+                                        j.blocks = 0; // the schedulers have a len_is_0 path: the job completes with its digest untouched
                                 size_t n = (size_t) j.blocks * d.block;
                                 j.buf = e.mem.alloc(n, 1, (Place) (o.d % 3), nullptr, "job buffer", R_INPUT, (size_t) ((o.d >> 2) % 64));
                                 Rng g(mix64(p.seed, 0x12000 + oi), "l2data");
